@@ -2,6 +2,7 @@ package sqlittle
 
 import (
 	"errors"
+	"math"
 
 	sdb "github.com/alicebob/sqlittle/db"
 )
@@ -61,9 +62,13 @@ func pkSelect(db *sdb.Database, s *sdb.Schema, key Key, cb RowCB, columns []stri
 		if len(key) == 0 {
 			return errors.New("invalid key")
 		}
-		rowid, ok := key[0].(int64)
+		rowid, ok, err := asRowid(key[0])
+		if err != nil {
+			return err
+		}
 		if !ok {
-			return errors.New("invalid key")
+			// a number no rowid can be equal to
+			return nil
 		}
 		row, err := selectRowid(db, s, rowid, columns)
 		if err != nil {
@@ -116,4 +121,38 @@ func pkSelectNonRowid(db *sdb.Database, s *sdb.Schema, key Key, cb RowCB, column
 			return false
 		},
 	)
+}
+
+// asRowid translates a Key value to the rowid it denotes, converting the same
+// Go datatypes asDbKey does. ok is false if the value is a number no rowid
+// can be equal to (not integral, or outside the int64 range).
+func asRowid(kv interface{}) (rowid int64, ok bool, err error) {
+	switch kv := kv.(type) {
+	case int64:
+		return kv, true, nil
+	case int:
+		return int64(kv), true, nil
+	case uint:
+		if kv > math.MaxInt64 {
+			return 0, false, nil
+		}
+		return int64(kv), true, nil
+	case int32:
+		return int64(kv), true, nil
+	case uint32:
+		return int64(kv), true, nil
+	case bool:
+		if kv {
+			return 1, true, nil
+		}
+		return 0, true, nil
+	case float32:
+		return asRowid(float64(kv))
+	case float64:
+		if kv >= -9223372036854775808.0 && kv < 9223372036854775808.0 && kv == math.Trunc(kv) {
+			return int64(kv), true, nil
+		}
+		return 0, false, nil
+	}
+	return 0, false, errors.New("invalid key")
 }
